@@ -201,11 +201,18 @@ struct Sim {
         base_height = base().height;
         if (n.tip()->GetBlockHash() != base_tip) throw std::runtime_error("restarted node is not at the base tip");
         up();
-        if (!all_synced()) throw std::runtime_error("indexes reopened on the base datadir are not synced");
+        if (!all_synced()) fail("index-reopen-base-not-synced", "indexes re-opened on the committed base datadir do not report synced");
     }
     ~Sim() { down(); }
 
-    void fail(const std::string& key, const std::string& what) { out.lines.push_back("V\t" + esc(key) + "\t" + esc(what + " after history [" + hist + "]") + "\t" + esc("history " + hist)); }
+    void fail(std::string key, const std::string& what)
+    {
+        for (char& c : key) if (c == ' ' || c == '\t') c = '_'; // keys are single tokens (known_findings.txt)
+        out.lines.push_back("V\t" + esc(key) + "\t" + esc(what + " after history [" + hist + "]") + "\t" + esc("history " + hist));
+    }
+    // blocks whose index records were written but can never be rewound any more: they had been appended when the index
+    // objects were destroyed, and were not on the chain of the block the re-opened index started from (known finding)
+    std::set<uint256> orphaned_records;
 
     std::vector<BaseIndex*> all() { return {txi.get(), bfi.get(), csi.get(), spi.get()}; }
     bool is_up() const { return (bool)txi; }
@@ -216,8 +223,29 @@ struct Sim {
         bfi = std::make_unique<BlockFilterIndex>(mk(), BlockFilterType::BASIC, 1 << 20, false, false);
         csi = std::make_unique<CoinStatsIndex>(mk(), 1 << 20, false, false);
         spi = std::make_unique<TxoSpenderIndex>(mk(), 1 << 20, false, false);
-        for (BaseIndex* i : all())
-            if (!i->Init()) fail("index-init-" + i->GetName(), "Init() of " + i->GetName() + " failed on its own database");
+        for (BaseIndex* i : all()) {
+            const CBlockLocator loc = i->GetDB().ReadBestBlock();
+            if (i->Init()) continue;
+            // known finding: BlockFilterIndex cannot re-open when its committed best block has been reorganised away and the
+            // height entry was overwritten before the next commit. Everything else is unexplained.
+            bool off_chain = false;
+            if (!loc.IsNull()) {
+                LOCK(cs_main);
+                const CBlockIndex* bi = n.chainman().m_blockman.LookupBlockIndex(loc.vHave.at(0));
+                off_chain = bi && !n.cs().m_chain.Contains(*bi);
+            }
+            if (i == bfi.get() && off_chain) fail("index-init-fails:blockfilter", "Init() of " + i->GetName() + " fails on its own database: committed best block is no longer in the active chain and its height entry was overwritten");
+            else fail("index-init-fails-unexplained:" + i->GetName(), "Init() of " + i->GetName() + " failed on its own database");
+        }
+        if (spi->m_init) {
+            const CBlockIndex* best = spi->m_best_block_index.load();
+            LOCK(cs_main);
+            for (auto& [hsh, rb] : L.blocks) {
+                if (rb.height <= base_height || !txi->GetDB().Exists(txindex::BlockHashKey{hsh})) continue;
+                const CBlockIndex* bi = n.chainman().m_blockman.LookupBlockIndex(hsh);
+                if (bi && !(best && best->GetAncestor(bi->nHeight) == bi)) orphaned_records.insert(hsh);
+            }
+        }
     }
     void down()
     {
@@ -495,11 +523,11 @@ struct Sim {
             if (s != spender.end()) {
                 if (!r->has_value()) fail("spender-missing", "txospenderindex has no spender for an outpoint spent in the active chain (block height " + S(L.Height(s->second.second)) + ")");
                 else if ((*r)->tx->GetWitnessHash() != s->second.first) fail("spender-wrong-tx", "txospenderindex returns a transaction that is not the active spender");
-                else if ((*r)->block_hash != s->second.second) fail("spender-stale-block", "txospenderindex returns the spender in block " + (*r)->block_hash.ToString().substr(0, 12) + " but the active spender is in block " + s->second.second.ToString().substr(0, 12));
+                else if ((*r)->block_hash != s->second.second) fail(orphaned_records.count((*r)->block_hash) ? "spender-stale-block" : "spender-stale-block-unexplained", "txospenderindex returns the spender in block " + (*r)->block_hash.ToString().substr(0, 12) + " but the active spender is in block " + s->second.second.ToString().substr(0, 12));
                 else out.spenders++;
             } else if (at_tip) {
                 out.neg_spender++;
-                if (r->has_value()) fail("spender-stale", "txospenderindex reports a spender (block " + (*r)->block_hash.ToString().substr(0, 12) + ") for an outpoint that is unspent in the active chain");
+                if (r->has_value()) fail(orphaned_records.count((*r)->block_hash) ? "spender-stale" : "spender-stale-unexplained", "txospenderindex reports a spender (block " + (*r)->block_hash.ToString().substr(0, 12) + ") for an outpoint that is unspent in the active chain");
             }
         }
         // ---- from-scratch computation by the node itself at the tip (flushes: done last, the node is discarded afterwards)
@@ -656,19 +684,25 @@ int main(int argc, char** argv)
     printf("BEGIN\t%s\n", vx::ctx().tier.c_str());
     // fork the workers before anything else exists in this process
     std::vector<Worker> ws(W);
-    for (auto& w : ws) {
+    for (auto& w : ws) { w.pid = -1; w.to = w.from = -1; }
+    // (re)start the worker in slot w; the parent never holds a node, so forking at any time is safe
+    auto spawn = [&](Worker& w) -> bool {
         int a[2], b[2];
-        if (pipe(a) || pipe(b)) { printf("HARNESS-ERROR pipe\n"); return 2; }
+        if (pipe(a) || pipe(b)) return false;
         fflush(stdout);
         pid_t p = fork();
+        if (p < 0) return false;
         if (p == 0) {
             close(a[1]); close(b[0]);
-            for (auto& o : ws) { if (&o == &w) break; close(o.to); close(o.from); }
+            for (auto& o : ws) { if (&o == &w) continue; if (o.to >= 0) close(o.to); if (o.from >= 0) close(o.from); }
             worker_main(a[0], b[1]);
         }
         close(a[0]); close(b[1]);
-        w.pid = p; w.to = a[1]; w.from = b[0];
-    }
+        w.pid = p; w.to = a[1]; w.from = b[0]; w.buf.clear(); w.busy = false; w.dead = false;
+        return true;
+    };
+    for (auto& w : ws) if (!spawn(w)) { printf("HARNESS-ERROR cannot start workers\n"); return 2; }
+    int respawns = 0;
     uint64_t states = 0, transitions = 0, evals = 0, agg[9] = {0}, full_checks = 0, nviol = 0;
     std::set<std::string> seen, viol_keys;
     std::map<std::string, std::string> ulines;
@@ -705,6 +739,8 @@ int main(int argc, char** argv)
                 if (r <= 0) {
                     // the worker died while replaying: report the history (an abort inside the node is a finding, not silence)
                     w.dead = true;
+                    { int st; waitpid(w.pid, &st, 0); close(w.to); close(w.from); w.to = w.from = -1; }
+                    if (++respawns <= 200) spawn(w); // a mutated / broken node may abort on many histories: keep the pool alive
                     std::string k = "process-died";
                     if (viol_keys.insert(k).second) { nviol++; printf("CXXVIOL\t%s\tworker process died (assert/abort/crash inside the node or an index) while replaying history [%s]\thistory %s\n", k.c_str(), jobs[w.job].c_str(), jobs[w.job].c_str()); }
                     results[w.job] = {"DIED", ""};
@@ -747,8 +783,8 @@ int main(int argc, char** argv)
         std::vector<std::pair<std::string, std::string>> res;
         ok = run_level({"", "a1tbfs", "a1tbfs"}, res);
         if (ok && res[1].first != res[2].first) { printf("HARNESS-ERROR replay is not deterministic:\n %s\n %s\n", res[1].first.c_str(), res[2].first.c_str()); ok = false; }
-        if (ok && (res[0].first == "DIED" || res[0].first == "EXC")) { printf("HARNESS-ERROR root state could not be built\n"); ok = false; }
-        if (ok) { seen.insert(res[0].first); states = 1; frontier.push_back({"", res[0].second}); }
+        const bool root_failed = ok && (res[0].first == "DIED" || res[0].first == "EXC"); // already reported as a violation
+        if (ok && !root_failed) { seen.insert(res[0].first); states = 1; frontier.push_back({"", res[0].second}); }
     }
     for (int depth = 1; ok && depth <= max_depth && nviol <= 20; depth++) {
         std::vector<std::string> jobs;
@@ -767,8 +803,8 @@ int main(int argc, char** argv)
         completed = depth;
         fprintf(stderr, "[C21] depth %d: states=%lu transitions=%lu frontier=%zu t=%.1fs\n", depth, (unsigned long)states, (unsigned long)transitions, frontier.size(), vx::elapsed());
     }
-    for (auto& w : ws) { if (!w.dead) { if (write(w.to, "Q\n", 2) < 0) {} } close(w.to); }
-    for (auto& w : ws) { int st; waitpid(w.pid, &st, 0); close(w.from); }
+    for (auto& w : ws) if (!w.dead) { if (write(w.to, "Q\n", 2) < 0) {} close(w.to); }
+    for (auto& w : ws) if (!w.dead) { int st; waitpid(w.pid, &st, 0); close(w.from); }
     if (!ok) { printf("HARNESS-ERROR worker pool failed\n"); fflush(stdout); return 2; }
     for (auto& [h, l] : ulines) printf("US%s\n", l.substr(1).c_str());
     uint64_t mh_evals = muhash_enum(big);
